@@ -26,7 +26,7 @@ ASSUMPTIONS = [
     'documented order of the coefficients: selected pairs unique and sorted by (parameter, dimension), covariate-minor',
     'distributional agreement of sampling is decided under C06; here only shapes and point-mass models']
 REQUIRED = ['kind:gauss', 'kind:lognorm', 'kind:trunc', 'kind:pooled', 'kind:hetero', 'sel:default', 'sel:explicit',
-            'sel:unsorted', 'sel:dup', 'zero_cov', 'zero_beta', 'oor', 'direct', 'int_theta']
+            'sel:unsorted', 'sel:dup', 'zero_cov', 'zero_beta', 'oor', 'direct', 'int_theta', 'dims_named_after_selection']
 
 
 def _theta_for(draw, spec, n_ids, cov):
@@ -78,7 +78,8 @@ def _spec(draw):
     if gen.chance(draw, 0.1):
         oor = draw(st.sampled_from([[npd, 0], [0, base['n_dim']], [-1, 0], [0, -1]]))
     direct = draw(st.sampled_from([None, None, 'list', 'array']))
-    return dict(pop=pop, n_ids=n_ids, theta=theta, z=z, cov=cov, U=U, oor=oor, direct=direct, int_theta=int_theta)
+    return dict(pop=pop, n_ids=n_ids, theta=theta, z=z, cov=cov, U=U, oor=oor, direct=direct, int_theta=int_theta,
+                rename_dims=bool(gen.chance(draw, 0.3)))
 
 
 def strategy(tier):
@@ -140,6 +141,8 @@ def classify(spec):
         labs.append('zero_beta')
     if spec['oor']:
         labs.append('oor')
+    if spec.get('rename_dims') and pop['sel'] is not None:
+        labs.append('dims_named_after_selection')
     if spec['direct']:
         labs.append('direct')
     return labs
@@ -181,6 +184,18 @@ def check(case):
         und.set_n_ids(n_ids)
     if case.fails:
         return
+
+    if s.get('rename_dims'):
+        # the dimensions are named AFTER the selection was made (as a hierarchical likelihood and a composed model do
+        # with the models they are given): the selection stays what it was
+        with case.clause('rename_dimensions'):
+            dn = ['theta %d' % (d + 1) for d in range(n_dim)]
+            m.set_dim_names(list(dn))
+            und.set_dim_names(list(dn))
+            case.equal(list(m.get_dim_names()), dn, 'dimension names after set_dim_names')
+            case.equal(m.n_parameters(), nb + len(sel) * n_cov, 'n_parameters after naming the dimensions')
+        if case.fails:
+            return
 
     if s['oor']:
         # an out-of-range selection is rejected, and the rejected call changes nothing: every clause below then
